@@ -62,7 +62,13 @@ def run(ctx, res):
     cr2 = C.run_corr(ctx.pid, "nnm_ext", nnm.IMPORTS, "nnm_case", extra, nnm.case_lit, "agree_nnm", shard=150, show="show_nnm")
     res.corr.append(("NonnegMean.estim/bet/test vs NNM model (grid stream)", cr, nnm.case_json))
     res.corr.append(("NonnegMean.estim/bet/test vs NNM model (extreme stream: tiny margins, error rates above the margin, runs of zeros)", cr2, nnm.case_json))
-    for c in cases + extra:
+    nd = []
+    for i in range(ctx.n(600, 8000)):
+        cfg, xs = nnm.gen_nondyadic(ctx.rng)
+        if cfg["kind"] in ("kk", "km", "kw"):
+            continue
+        nd.append({"cfg": cfg, "xs": xs, "impl": nnm.run_impl(cfg, xs, variant=i), "tag": "non-dyadic (oracle only)"})
+    for c in cases + extra + nd:
         res.evaluations += 1
         res.oracle_runs += 1
         if len(set(c["xs"])) > 1:
